@@ -126,6 +126,32 @@ fn check(ctx: &Ctx, c: &Case) -> PResult {
         ctx.label("cross-checked with the real prover");
     }
 
+    // role-free adversary: the gadget's own accumulators for an in-range
+    // value, with the input witness put back
+    if !expected_sat {
+        let ov = f_of(f_int(&c.r.0).low_bits(w as u32));
+        let oop = if use_pairs {
+            Op::RangePairs { pairs: (w / 2) as u16, v: Fe(ov) }
+        } else {
+            Op::RangeBits { bits: w as u16, v: Fe(ov) }
+        };
+        let other = Gad::build(vec![oop], false).map_err(|e| Fail::new("range-build-error", format!("{e:?}")))?;
+        let inp = g.handle_wit(2);
+        match gadget::transplant(&g, &other, &[inp]) {
+            Some(asg) => {
+                ctx.add_evals(1);
+                ctx.label("adversary: transplant");
+                if g.eval(&asg).is_empty() {
+                    let real = g.prove_assignment(&asg, c.seed)?;
+                    return Err(Fail::new(
+                        "range-accumulators-decoupled-from-input",
+                        format!("width {w}, value {} >= 2^{w}: the accumulators of an in-range value satisfy every row (real: {real:?})", crate::fe::fe_short(&v)),
+                    ));
+                }
+            }
+            None => return Err(Fail::new("range-shape-depends-on-values", "two builds differ in layout")),
+        }
+    }
     // adversarial accumulators on the unchanged layout
     let honest_vec = gadget::rc_vec(w, f_int(&v));
     if !g.role_model_matches(0, 1, &honest_vec) {
